@@ -425,6 +425,15 @@ def replay(rec):
     c = rec["case"]
     if "bp" in c:
         check_detection(run, c["bp"])
+    elif "declared" in c:
+        from pysmt.environment import Environment
+        byname = {str(l): l for l in L.LOGICS}
+        env = Environment()
+        env.factory.add_generic_solver("gen", ["/bin/false"], [byname[n] for n in c["declared"]])
+        t = byname[c["target"]]
+        want = any(t <= byname[n] for n in c["declared"])
+        if ("gen" in env.factory.all_solvers(logic=t)) != want:
+            run.fail({"subcheck": "select:factory-support"}, c, "all_solvers(logic=%s) disagrees for a solver declaring %s" % (t, c["declared"]))
     elif "supported" in c:
         byname = {str(l): l for l in L.LOGICS}
         if c["target"] in byname:
